@@ -1,7 +1,7 @@
 #!/venv/bin/python
 """Create one scratch worktree of /repo per property plus the prompt given to a fresh sub-agent (property text only).
 
-usage: tools/mk_mutant_prompts.py <dir outside /repo and /verif, e.g. /tmp/wt4> [hint-set 0|1|2]
+usage: tools/mk_mutant_prompts.py <dir outside /repo and /verif, e.g. /tmp/wt4> [hint-set 0|1|2|3]
 The sub-agent gets: the property's title/statement/quantifier and its own worktree - nothing from /verif.
 Afterwards: tools/seed_mutant.py Cxx a|b <dir>/Cxx/_out <store letter>, then `git -C /repo worktree remove --force <dir>/Cxx`.
 """
@@ -52,7 +52,24 @@ HINTS = ['''       - a code path that only ONE entry point takes (closest, filte
        - text-level corners of the grammar: a comment or escape directly against an unusual neighbour token
          (`|`, `*`, `&`, `::`, `@`, `!=`), CRLF inside strings, NUL and surrogates, `--` and `-` prefixes, numbers
          with signs and leading zeros, upper-case keywords, nothing but white space;
-       - anything where the library trusts an invariant of its input that a mutant can quietly stop maintaining.''']
+       - anything where the library trusts an invariant of its input that a mutant can quietly stop maintaining.''',
+         '''       ... and assume that it ALSO already varies all of the following, so none of them is a hiding place any more:
+         every entry point and bs4 wrapper (select/select_one/iselect/match/filter/closest, limit, lazily consumed
+         iterators, compiled / pickled / deep-copied objects, str subclasses, bool flags); trees from five builders
+         plus elements moved between them, detached and never-attached elements, twins that compare equal, mixed-case
+         names and attribute keys made through the API, list / bytes / None / number attribute values, several
+         top-level nodes, iframes (also nested, foreign-namespace look-alikes), XHTML through the XML parser;
+         namespace maps with default / colliding / `html` prefixes, one dict object re-used and refilled, custom
+         selectors (nested, cyclic, diamond shaped, case variants); respellings of every token (escapes of upper- and
+         lower-case letters, comments with value-like words, CRLF, line continuations, quotes); forgiving lists with
+         empty / dangling members; An+B up to 10^30; non-ASCII digits; values of thousands of characters; cache
+         eviction, purge, transient failures, threads pre-empted at every line, fresh interpreters in every import
+         order; user-written lists equal to the library's internal ones; the same pseudo-class asked twice per call.
+       So look for what is left: a *semantic* slip rather than a structural one - a rule of the CSS / HTML
+       specifications that the code implements in one particular place and that can be bent slightly (which
+       elements count, which attribute decides, which ancestor stops a walk, which comparison is case-folded, what
+       happens at exactly zero / one / the last item), such that every call path stays self-consistent and only
+       the *meaning* is off for a narrow class of documents.''']
 
 TMPL = '''You are helping test a verification tool by playing the role of a careless-but-plausible developer.
 
